@@ -118,6 +118,10 @@ def _spikes_venn(
     # to calibrate chunking
     max_samples = max([np.max(samples) for samples in samples_tuple])
     num_chunks = int((max_samples // chunk_size) + 1)
+    # chunk ch holds the samples in [ch * chunk_size, (ch + 1) * chunk_size): with a chunk size that is not a whole number
+    # (20 * fs for a calibrated rate) the floor division can come out one short of the chunk that holds the last spike
+    while num_chunks * chunk_size <= max_samples:
+        num_chunks += 1
 
     # each spike falls into one of 7 conditions based on whether it was found
     # by different sortings
@@ -131,7 +135,7 @@ def _spikes_venn(
         sample_offset = ch * chunk_size
         spike_indices = [
             slice(
-                *np.searchsorted(samples, [sample_offset, sample_offset + chunk_size])
+                *np.searchsorted(samples, [sample_offset, (ch + 1) * chunk_size])
             )
             for samples in samples_tuple
         ]
